@@ -12,8 +12,10 @@
 #include <nano/core/numeric.h>
 #include <nano/core/verif.h>
 #include <nano/dataset.h>
+#include <nano/dataset/iterator.h>
 #include <nano/dataset/stats.h>
 
+#include <mutex>
 #include <optional>
 
 using namespace verif;
@@ -773,10 +775,106 @@ verdict_t check_impl(const case_t& c, ctx_t& ctx)
         {
             break;
         }
+        // the same inputs (with their missing values) through the 4D kernels, one column per plane
+        check_mode(
+            inputs, fstats, mode, c.samples,
+            [&](std::vector<double>& m) { fstats.scale(type, nano::map_tensor(m.data(), static_cast<tensor_size_t>(n), static_cast<tensor_size_t>(ncols), tensor_size_t{1}, tensor_size_t{1})); },
+            [&](std::vector<double>& m) { fstats.upscale(type, nano::map_tensor(m.data(), static_cast<tensor_size_t>(n), static_cast<tensor_size_t>(ncols), tensor_size_t{1}, tensor_size_t{1})); },
+            judge, deg);
+        if (judge.fail)
+        {
+            break;
+        }
         const auto tdims = dataset.target_dims();
         check_mode(
             outputs, tstats, mode, c.samples, [&](std::vector<double>& m) { tstats.scale(type, nano::map_tensor(m.data(), nano::cat_dims(static_cast<tensor_size_t>(n), tdims))); },
             [&](std::vector<double>& m) { tstats.upscale(type, nano::map_tensor(m.data(), nano::cat_dims(static_cast<tensor_size_t>(n), tdims))); }, judge, deg);
+    }
+
+    // -- the dataset iterators deliver exactly what the kernels compute from the raw values ---------
+    // (flatten_iterator_t / targets_iterator_t apply the scaling on the fly or when caching; cached and uncached, every mode)
+    for (int mode = 0; mode < 4 && !judge.fail; ++mode)
+    {
+        const auto type = static_cast<scaling_type>(mode);
+        for (int cached = 0; cached < 2 && !judge.fail; ++cached)
+        {
+            auto fit = nano::flatten_iterator_t{dataset, samples};
+            fit.batch(c.batch);
+            fit.scaling(type);
+            auto tit = nano::targets_iterator_t{dataset, samples};
+            tit.batch(c.batch);
+            tit.scaling(type);
+            if (cached != 0)
+            {
+                (void)fit.cache_flatten(std::numeric_limits<tensor_size_t>::max());
+                (void)fit.cache_targets(std::numeric_limits<tensor_size_t>::max());
+                (void)tit.cache_targets(std::numeric_limits<tensor_size_t>::max());
+            }
+            std::mutex  mutex;
+            std::string first;
+            const auto  report = [&](std::string what)
+            {
+                const std::scoped_lock lock(mutex);
+                if (first.empty())
+                {
+                    first = std::move(what);
+                }
+            };
+            const auto same = [](double a, double b) { return a == b || (std::isnan(a) && std::isnan(b)); };
+            const auto check_inputs = [&](const nano::tensor_range_t& range, const nano::tensor2d_cmap_t& got, const scalar_stats_t& st)
+            {
+                nano::tensor2d_t expected(range.size(), static_cast<tensor_size_t>(ncols));
+                for (tensor_size_t r = 0; r < range.size(); ++r)
+                {
+                    for (int j = 0; j < ncols; ++j)
+                    {
+                        expected(r, j) = inputs.all[static_cast<size_t>(j)][static_cast<size_t>(c.samples[static_cast<size_t>(range.begin() + r)])];
+                    }
+                }
+                st.scale(type, expected.tensor());
+                for (tensor_size_t k = 0; k < expected.size(); ++k)
+                {
+                    if (got.size() != expected.size() || !same(got.data()[k], expected.data()[k]))
+                    {
+                        report(cat("flatten element ", k, " of the batch starting at ", range.begin(), ": iterator ", got.size() == expected.size() ? got.data()[k] : 0.0,
+                                   " kernel ", expected.data()[k]));
+                        return;
+                    }
+                }
+            };
+            const auto check_targets = [&](const nano::tensor_range_t& range, const nano::tensor4d_cmap_t& got, const scalar_stats_t& st)
+            {
+                nano::tensor4d_t expected(nano::cat_dims(range.size(), dataset.target_dims()));
+                for (tensor_size_t r = 0; r < range.size(); ++r)
+                {
+                    for (int k = 0; k < tsize; ++k)
+                    {
+                        expected.tensor(r)(k) = outputs.all[static_cast<size_t>(k)][static_cast<size_t>(c.samples[static_cast<size_t>(range.begin() + r)])];
+                    }
+                }
+                st.scale(type, expected.tensor());
+                for (tensor_size_t k = 0; k < expected.size(); ++k)
+                {
+                    if (got.size() != expected.size() || !same(got.data()[k], expected.data()[k]))
+                    {
+                        report(cat("targets element ", k, " of the batch starting at ", range.begin(), ": iterator ", got.size() == expected.size() ? got.data()[k] : 0.0,
+                                   " kernel ", expected.data()[k]));
+                        return;
+                    }
+                }
+            };
+            fit.loop([&](nano::tensor_range_t range, size_t, nano::tensor2d_cmap_t flat, nano::tensor4d_cmap_t targ)
+                     {
+                         check_inputs(range, flat, fit.flatten_stats());
+                         check_targets(range, targ, fit.targets_stats());
+                     });
+            tit.loop([&](nano::tensor_range_t range, size_t, nano::tensor4d_cmap_t targ) { check_targets(range, targ, tit.targets_stats()); });
+            if (!first.empty())
+            {
+                judge.fail = verdict_t::violation(cat("C14/iterator/", cached != 0 ? "cached" : "uncached", "/differs-from-the-kernel"),
+                                                  cat("scaling mode ", mode, ": ", first));
+            }
+        }
     }
 
     // -- (vi) the affine conversion of weights and bias, all 16 pairs of modes --------------------
